@@ -32,7 +32,7 @@ ASSUMPTIONS = [
     "the model keeps C integer wrap-around, char/str coercions, typed memoryviews and cdef visibility; Python-object to "
     "C-integer OverflowError is not modelled (no call site can reach it with well-formed input)",
     "sentinels: typecode -1 ~ None; altitude/altcode -999999 and -1 ~ None; gray2alt -1 ~ None",
-    "cprNL may differ between the modules only within 1e-9 deg of a transition latitude (both neighbours admissible, C06)",
+    "cprNL may differ between the modules only within 1e-9 deg of one of the 57 irrational transition latitudes (both neighbours admissible, C06; libm vs numpy rounding); around 0 and 87 the two must agree float by float",
     "well-formed input only: hex/binary digit strings, frames of 14/28 hex digits (bin2int/hex2int beyond 63 bits wrap in C "
     "and are outside every decoder's use: at most 56 bits are ever passed)",
     "conformance (Part C) needs the git-ignored c_common.c next to the .pyx; when it is absent or matches no revision of "
@@ -59,8 +59,10 @@ def judgeA(fname, args, other=None):
     b = norm(fname, call(getattr(other or SIM, fname), *args))
     if a == b:
         return None
-    if fname == "cprNL" and a[0] == b[0] == "ok" and C.near_transition(args[0], C.EPS) and {a[1], b[1]} <= C.NL_set(args[0]):
-        return None     # within 1e-9 deg of a transition either neighbour is admissible (libm vs numpy rounding)
+    if (fname == "cprNL" and a[0] == b[0] == "ok" and {a[1], b[1]} <= C.NL_set(args[0])
+            and any(abs(abs(args[0]) - t) <= C.EPS for nl, t in C.TRANS.items() if nl != 2)):
+        return None     # within 1e-9 deg of one of the 57 irrational transitions either neighbour is admissible (libm vs
+        #                 numpy rounding); 0 and 87 are exactly representable and both modules branch on them: equal there
     if fname in ("bin2int", "hex2int") and a[0] == b[0] == "ok" and len(args[0]) * (1 if fname == "bin2int" else 4) > 63:
         return "%s:wraps_beyond_63_bits" % fname
     if a[0] == "exc" and b[0] == "exc":
